@@ -199,6 +199,7 @@ def render(tree, rng, style, prefix="", mid=None):
     pos = len(prefix.encode())          # byte position
     prev = None
     pending = []
+    open_empty = []
     spans = []
     last_end = 0
     for kind, x in ev:
@@ -209,6 +210,11 @@ def render(tree, rng, style, prefix="", mid=None):
             if x in pending:       # a span without tokens
                 pending.remove(x)
                 x.start = x.end = None
+                if x.kind == "params":
+                    # an empty parameter list: `<args:@L> .. <arge:@R>` of the grammar is the stretch from the end of `(`
+                    # to the start of `)` (blanks and comments between the parentheses included)
+                    x.start = last_end
+                    open_empty.append(x)
             else:
                 x.end = last_end
         else:
@@ -220,6 +226,9 @@ def render(tree, rng, style, prefix="", mid=None):
             itok += 1
             out.append(t)
             pos += len(t.encode())
+            for sp in open_empty:
+                sp.end = pos
+            open_empty = []
             for sp in pending:
                 sp.start = pos
             pending = []
@@ -275,7 +284,12 @@ def call(name, *args):
             items.append(",")
         items.append(a)
     items.append(")")
-    return S("expr", names_of(list(args)), *items, op="call", callee=name)
+    attrs = {}
+    if len(args) == 1:
+        a = args[0]
+        # the size handed to Num2Bits / Bits2Num: a constant, or None = not a constant (a template parameter)
+        attrs["bits"] = int(a.items[0]) if isinstance(a, Span) and a.attrs.get("op") == "num" else None
+    return S("expr", names_of(list(args)), *items, op="call", callee=name, **attrs)
 
 
 def ternary(c, a, b):
@@ -341,6 +355,8 @@ class Gen:
             rhs = infix(">>", var(a), num(1))
         else:
             rhs = self.expr([a, b], 2)
+        if form == "div":
+            rhs.items[-1].attrs["top_divisor"] = True       # the divisor of the top-level `/` of a `<--` right-hand side
         if form == "rev" or r.random() < 0.2:
             st = stmt("assign", {c}, rhs, "-->", var(c), target=c)
         else:
@@ -467,24 +483,33 @@ class Gen:
         env["needs"].add(which)
         if which == "Num2Bits":
             cl = call("Num2Bits", num(r.choice([254, 8])))
+            cl.attrs["out_read"] = False
             d = stmt("decl", {c}, "component", c, "=", cl)
-            return [], [d, stmt("cassign", {c}, var(c), ".", "in", "<==", var(a), target=c)]
+            va = var(a)
+            va.attrs.update(role="n2b_input", value=a, bits=cl.attrs["bits"])
+            return [], [d, stmt("cassign", {c}, var(c), ".", "in", "<==", va, target=c)]
         if which == "Bits2Num":
             cl = call("Bits2Num", num(254))
+            cl.attrs["out_read"] = False
             d = stmt("decl", {c}, "component", c, "=", cl)
             return [], [d, stmt("cassign", {c}, var(c), ".", "in", "[", num(0), "]", "<==", var(a), target=c)]
         if which == "Sign":
             cl = call("Sign")
+            cl.attrs["out_read"] = False
             d = stmt("decl", {c}, "component", c)
             return [], [d, stmt("vassign", {c}, c, "=", cl, target=c),
                         stmt("cassign", {c}, var(c), ".", "in", "<==", var(a), target=c)]
         cl = call("LessThan", num(8))
+        cl.attrs["out_read"] = True
         d = stmt("decl", {c}, "component", c, "=", cl)
         o = self.fresh("lo")
+        va, vb = var(a), var(b)
+        va.attrs.update(role="lt_input", value=a)
+        vb.attrs.update(role="lt_input", value=b)
         return [stmt("decl", {o}, "signal", "output", o, sig=True)], [
             d,
-            stmt("cassign", {c}, var(c), ".", "in", "[", num(0), "]", "<==", var(a), target=c),
-            stmt("cassign", {c}, var(c), ".", "in", "[", num(1), "]", "<==", var(b), target=c),
+            stmt("cassign", {c}, var(c), ".", "in", "[", num(0), "]", "<==", va, target=c),
+            stmt("cassign", {c}, var(c), ".", "in", "[", num(1), "]", "<==", vb, target=c),
             stmt("cassign", {o}, var(o), "<==", var(c), ".", "out", target=o)]
 
     def lib_out_template(self):
@@ -508,6 +533,7 @@ class Gen:
         name, outs = r.choice(self.lib_templates)
         c = self.fresh("xc")
         cl = call(name)
+        cl.attrs["out_read"] = False          # two outputs, at most one of them is read below
         self.features.add("cross-file-component")
         form = r.choice(["init", "assign"])
         if form == "init":
@@ -521,6 +547,110 @@ class Gen:
             decls.append(stmt("decl", {o}, "signal", "output", o, sig=True))
             sts.append(stmt("cassign", {o}, var(o), "<==", var(c), ".", outs[0], target=o))
         return decls, sts
+
+    def idiom_instances(self, env):
+        """Several instantiations of the SAME template (or several constructs of the same kind) in one definition, of
+        which only some are the ones a finding is about: a label moved onto another instance of the kind is wrong."""
+        r = self.r
+        a, b = env["in"]
+        which = r.choice(["n2b", "b2n", "lt_out", "lt_inputs", "sign", "div"])
+        self.features.add("instances-" + which)
+        decls, sts = [], []
+        if which in ("n2b", "b2n"):
+            callee = "Num2Bits" if which == "n2b" else "Bits2Num"
+            env["needs"].add(callee)
+            sizes = [8, 254, r.choice([8, 64, 253, 254, 255, 300])]
+            if env["params"] and r.random() < 0.4:
+                sizes.append(None)
+            r.shuffle(sizes)
+            for k in sizes[:r.choice([2, 3, len(sizes)])]:
+                c = self.fresh("cmp")
+                cl = call(callee, num(k) if k is not None else var(env["params"][0]))
+                cl.attrs["out_read"] = False
+                sts.append(stmt("decl", {c}, "component", c, "=", cl))
+                if which == "n2b":
+                    va = var(a)
+                    va.attrs.update(role="n2b_input", value=a, bits=k)
+                    sts.append(stmt("cassign", {c}, var(c), ".", "in", "<==", va, target=c))
+                else:
+                    sts.append(stmt("cassign", {c}, var(c), ".", "in", "[", num(0), "]", "<==", var(a), target=c))
+        elif which in ("lt_out", "lt_inputs"):
+            env["needs"].add("LessThan")
+            if which == "lt_inputs":
+                env["needs"].add("Num2Bits")
+                nb = self.fresh("nb")
+                k = r.choice([8, 8, 252, 253, 254])
+                cl = call("Num2Bits", num(k))
+                cl.attrs["out_read"] = False
+                sts.append(stmt("decl", {nb}, "component", nb, "=", cl))
+                vb = var(b)
+                vb.attrs.update(role="n2b_input", value=b, bits=k)
+                sts.append(stmt("cassign", {nb}, var(nb), ".", "in", "<==", vb, target=nb))
+            reads = [True, False] if which == "lt_out" else [r.random() < 0.5, r.random() < 0.5]
+            r.shuffle(reads)
+            for rd in reads:
+                c = self.fresh("lt")
+                cl = call("LessThan", num(8))
+                cl.attrs["out_read"] = rd
+                va, vb = var(a), var(b)
+                va.attrs.update(role="lt_input", value=a)
+                vb.attrs.update(role="lt_input", value=b)
+                sts += [stmt("decl", {c}, "component", c, "=", cl),
+                        stmt("cassign", {c}, var(c), ".", "in", "[", num(0), "]", "<==", va, target=c),
+                        stmt("cassign", {c}, var(c), ".", "in", "[", num(1), "]", "<==", vb, target=c)]
+                if rd:
+                    o = self.fresh("lo")
+                    decls.append(stmt("decl", {o}, "signal", "output", o, sig=True))
+                    sts.append(stmt("cassign", {o}, var(o), "<==", var(c), ".", "out", target=o))
+        elif which == "sign":
+            env["needs"].add("Sign")
+            for _ in range(r.choice([2, 3])):
+                c = self.fresh("sg")
+                cl = call("Sign")
+                cl.attrs["out_read"] = False
+                sts += [stmt("decl", {c}, "component", c, "=", cl),
+                        stmt("cassign", {c}, var(c), ".", "in", "<==", var(r.choice([a, b])), target=c)]
+        else:
+            # `<--` with a top-level division (the divisor is what CS0015 is about), next to divisions that are not
+            # the top of a `<--` right-hand side and a `<--` whose divisor is a constant
+            for form in r.sample(["ab", "ba", "const", "nested", "ab"], 3):
+                c = self.fresh("dv")
+                decls.append(stmt("decl", {c}, "signal", c, sig=True))
+                if form in ("ab", "ba"):
+                    x, y = (a, b) if form == "ab" else (b, a)
+                    rhs = infix("/", var(x), var(y))
+                    rhs.items[-1].attrs["top_divisor"] = True
+                elif form == "const":
+                    rhs = infix("/", var(a), num(2))
+                    rhs.items[-1].attrs["top_divisor"] = "constant"
+                else:
+                    rhs = infix("+", paren(infix("/", var(a), var(b))), num(1))
+                sts.append(stmt("assign", {c}, var(c), "<--", rhs, target=c))
+        return decls, sts
+
+    def idiom_anon_misuse(self, env):
+        """anonymous components where the language does not allow them (TAC01)"""
+        r = self.r
+        a, b = env["in"]
+        env["needs"].add("Anon1")
+        cl = S("expr", {a}, "Anon1", "(", ")", "(", var(a), ")", op="anon", callee="Anon1")
+        form = r.choice(["log", "assert", "ceq", "cond", "arith", "index"])
+        self.features.add("anon-misuse-" + form)
+        if form == "log":
+            return [], [[S("log", {a}, "log", "(", cl, ")"), ";"]]
+        if form == "assert":
+            return [], [[S("assert", {a}, "assert", "(", cl, ")"), ";"]]
+        if form == "ceq":
+            return [], [stmt("ceq", {a, b}, cl, "===", var(b))]
+        if form == "cond":
+            return [], [[S("ifstmt", {a}, "if", "(", S("cond", {a}, infix("==", cl, num(1))), ")", "{", "}")]]
+        if form == "arith":
+            o = self.fresh("ao")
+            return [stmt("decl", {o}, "signal", "output", o, sig=True)], [
+                stmt("cassign", {o}, var(o), "<==", infix("+", cl, num(1)), target=o)]
+        o = self.fresh("ao")
+        return [stmt("decl", {o}, "signal", "output", o, "[", num(2), "]", sig=True)], [
+            stmt("cassign", {o}, var(o, cl), "<==", var(b), target=o)]
 
     def idiom_tuple(self, env):
         r = self.r
@@ -612,7 +742,7 @@ class Gen:
 
     TEMPLATE_IDIOMS = ["sigassign", "sigassign", "sigassign", "array_assign", "shadow", "shadow_param", "const_cond",
                        "field_ops", "field_ops", "unused", "unconstrained_signal", "under_constrained", "component",
-                       "tuple", "anon", "phi", "log_assert"]
+                       "tuple", "anon", "phi", "log_assert", "instances", "instances"]
 
     def template(self, name=None, size=4, nparams=None, dup_param=False):
         r = self.r
@@ -638,6 +768,10 @@ class Gen:
             body += b2
         if r.random() < 0.05:
             d, b2 = self.idiom_undefined(env)
+            body += b2
+        if r.random() < 0.03:
+            d, b2 = self.idiom_anon_misuse(env)
+            decls += d
             body += b2
         if self.lib_templates and r.random() < 0.6:
             d, b2 = self.idiom_lib_component(env)
@@ -718,12 +852,26 @@ class Gen:
 # projects
 # ----------------------------------------------------------------------------
 
-def gen_file_tree(g, rng, ndefs, includes=(), with_pragma=True, with_main=None, inject=None):
+def dup_def(g, rng, nm):
+    """Another definition of the name `nm`: template or function, 0..2 parameters."""
+    params = [g.fresh("dp") for _ in range(rng.choice([0, 0, 1, 2]))]
+    ptoks = []
+    for i, q in enumerate(params):
+        if i:
+            ptoks.append(",")
+        ptoks.append(q)
+    if rng.random() < 0.6:
+        return S("def", {nm}, "template", nm, "(", S("params", set(params), *ptoks), ")", "{", "}", params=params, duplicate=True)
+    return S("def", {nm}, "function", nm, "(", S("params", set(params), *ptoks), ")", "{",
+             [S("return", set(), "return", num(1)), ";"], "}", params=params, duplicate=True)
+
+
+def gen_file_tree(g, rng, ndefs, includes=(), with_pragma=True, with_main=None, inject=None, dup_of=None):
     """-> (tree, meta)"""
     items = []
     meta = {"defs": [], "inject": inject}
     if with_pragma:
-        items.append([Tok("pragma circom"), rng.choice(["2.0.0", "2.1.2", "2.0.8"]), ";"])
+        items.append([Tok("pragma circom"), "9.9.9" if inject == "bad_version" else rng.choice(["2.0.0", "2.1.2", "2.0.8"]), ";"])
     for inc in includes:
         items.append([S("include", {inc}, "include", Tok('"%s"' % inc)), ";"])
     needs = set()
@@ -740,10 +888,13 @@ def gen_file_tree(g, rng, ndefs, includes=(), with_pragma=True, with_main=None, 
             needs |= nd
             defs.append(f)
     if inject == "duplicate_def" and defs:
-        d = defs[0]
-        nm = sorted(d.names)[0]
-        defs.append(S("def", {nm}, "template", nm, "(", S("params", ()), ")", "{", "}", params=[], duplicate=True))
-        g.features.add("duplicate-def")
+        own = sorted(defs[0].names)[0]
+        for nm in ([own] if not dup_of else dup_of):
+            nm = nm or own
+            defs.append(dup_def(g, rng, nm))
+            if rng.random() < 0.25:
+                defs.append(dup_def(g, rng, nm))          # three definitions of one name
+        g.features.add("duplicate-def" + ("-cross-file" if dup_of else ""))
     for w in sorted(needs):
         defs.append(g.support(w))
     rng.shuffle(defs)
@@ -795,16 +946,37 @@ def gen_project(rng, idx):
         inject = "duplicate_def"
     elif r < 0.35:
         inject = "truncated"
+    elif r < 0.36:
+        inject = "bad_version"
+    elif r < 0.375:
+        inject = "two_mains"
     exotic = rng.choice(EXOTIC_KINDS) if (inject is None and rng.random() < 0.22) else None
     files = {}
     spans = {}
     stats = {}
     includes = []
     with_lib = rng.random() < 0.25
+    dup_mode = rng.choice(["same", "cross", "cross", "cross_argv", "both"]) if inject == "duplicate_def" else None
+    if dup_mode in ("cross", "cross_argv", "both") or inject == "two_mains":
+        with_lib = True
+    dup_of = None
+    argv = ["main.circom"]
     if with_lib:
         lib_style = rng.choice(STYLES)
         lib_pragma = rng.random() < 0.8
-        tree, _ = gen_file_tree(g, rng, rng.choice([1, 2]), with_pragma=lib_pragma, with_main=False)
+        tree, _ = gen_file_tree(g, rng, rng.choice([1, 2]), with_pragma=lib_pragma, with_main=(inject == "two_mains"))
+        if dup_mode in ("cross", "cross_argv", "both"):
+            # the including file defines a name of the included file again (and, mode `both`, one of its own as well);
+            # `cross_argv`: the included file is a user input too and comes first, so ITS definition is the first one
+            lib_names = [sorted(x.names)[0] for x in tree if isinstance(x, Span) and x.kind == "def" and not x.attrs.get("support")]
+            if lib_names:
+                dup_of = [rng.choice(lib_names)]
+                if dup_mode == "both":
+                    dup_of.append(None)
+            if dup_mode == "cross_argv":
+                argv = ["lib.circom", "main.circom"]
+        if inject == "two_mains":
+            argv = rng.choice([["main.circom", "lib.circom"], ["lib.circom", "main.circom"], ["main.circom"]])
         if rng.random() < 0.8:
             # a template whose output signals are left unread by the including file (cross-file finding)
             tree.insert(rng.randrange(1 if lib_pragma else 0, len(tree) + 1), g.lib_out_template())
@@ -815,8 +987,9 @@ def gen_project(rng, idx):
         g.features.add("include")
     if inject == "missing_include":
         includes.insert(rng.randrange(len(includes) + 1), rng.choice(["nope.circom", "déjà.circom", "missing file.circom"]))
-    tree, _ = gen_file_tree(g, rng, rng.choice([1, 2, 3]), includes=includes, with_pragma=rng.random() < 0.85,
-                            inject=inject)
+    tree, _ = gen_file_tree(g, rng, rng.choice([1, 2, 3]), includes=includes,
+                            with_pragma=(rng.random() < 0.85 or inject == "bad_version"),
+                            with_main=(True if inject == "two_mains" else None), inject=inject, dup_of=dup_of)
     expect = None
     if inject in ("invalid_token", "unrecognized_token"):
         ev = flatten(tree, [])
@@ -851,7 +1024,7 @@ def gen_project(rng, idx):
     spans["main.circom"] = sp
     for k, v in st.items():
         stats[k] = stats.get(k, 0) + v
-    return {"idx": idx, "files": files, "argv": ["main.circom"], "spans": spans, "style": style,
+    return {"idx": idx, "files": files, "argv": argv, "spans": spans, "style": style,
             "features": sorted(g.features), "inject": inject, "exotic": exotic, "expect": expect, "trivia": stats}
 
 
